@@ -478,7 +478,7 @@ ApStep(m) ==
     [] f.t = "prim" -> ApplyPrim(m, f.v, a)
     [] f.t = "kont" ->
          IF Len(a) # 1 THEN OutOfModel(m, "continuation applied to other than one value")
-         ELSE Rt([WithRule(m, "throw") EXCEPT !.k = f.k], a[1])
+         ELSE Rt([WithRule(m, "throw") EXCEPT !.k = f.k, !.maxd = Max2(@, Len(f.k))], a[1])
     [] OTHER -> Fail(WithRule(m, "not-a-procedure"), "notproc", <<>>)
 
 -----------------------------------------------------------------------------
